@@ -111,6 +111,7 @@ type VC struct {
 	retTerms   []Term
 	knownTerms map[*KnownFinding]Term
 	recDecl    map[string]string // define-fun-rec line -> declare-fun line
+	constLens  map[string]int64  // slice terms with a literal length (varargs arrays)
 }
 
 func newVC(eng *Engine, name string, c *Contract) *VC {
@@ -149,6 +150,19 @@ func (vc *VC) define(prefix string, t Term) Term {
 	n := vc.freshName(prefix)
 	vc.emit(fmt.Sprintf("(define-fun %s () %s %s)", n, t.Sort, t.S))
 	return Term{n, t.Sort}
+}
+
+// nameInt binds an integer term to a fresh constant (declare + equality).
+func (vc *VC) nameInt(prefix string, t Term) Term {
+	if !strings.ContainsAny(t.S, " (") {
+		return t
+	}
+	if _, ok := litOf(t); ok {
+		return t
+	}
+	c := vc.fresh(prefix, t.Sort)
+	vc.emit("(assert (= " + c.S + " " + t.S + "))")
+	return c
 }
 
 // assert adds an assumption; top-level conjunctions are split into separate
@@ -213,7 +227,45 @@ func sexpArgs(s string) []string {
 
 func (vc *VC) note(s string) { vc.assumed[s] = true }
 
+// skolemize replaces outermost universal quantifiers of a goal (under implications)
+// by fresh constants: proving the body for arbitrary constants proves the forall,
+// and the constants give the engine ground index terms to instantiate assumptions at.
+func (vc *VC) skolemize(goal string) string {
+	if strings.HasPrefix(goal, "(=> ") {
+		inner := goal[len("(=> ") : len(goal)-1]
+		a, rest := splitSexp(inner)
+		b, tail := splitSexp(rest)
+		if strings.TrimSpace(tail) == "" {
+			return "(=> " + a + " " + vc.skolemize(b) + ")"
+		}
+		return goal
+	}
+	if strings.HasPrefix(goal, "(forall (") {
+		inner := goal[len("(forall ") : len(goal)-1]
+		binders, rest := splitSexp(inner)
+		body, tail := splitSexp(rest)
+		if strings.TrimSpace(tail) != "" {
+			return goal
+		}
+		m := map[string]string{}
+		b := binders[1 : len(binders)-1]
+		for b = strings.TrimSpace(b); b != ""; b = strings.TrimSpace(b) {
+			one, r := splitSexp(b)
+			i := strings.IndexByte(one, ' ')
+			name, srt := one[1:i], strings.TrimSpace(one[i+1:len(one)-1])
+			sk := vc.fresh("sk_"+strings.TrimPrefix(name, "q_"), srt)
+			m[name] = sk.S
+			b = r
+		}
+		return vc.skolemize(substTokens(body, m))
+	}
+	return goal
+}
+
 func (vc *VC) oblige(st *State, kind, text string, goal Term) *Obligation {
+	if strings.Contains(goal.S, "(forall (") {
+		goal = Term{vc.skolemize(goal.S), SBool}
+	}
 	vc.oblCount[kind]++
 	name := fmt.Sprintf("%s/%s#%d", vc.Name, kind, vc.oblCount[kind])
 	o := &Obligation{Name: name, Kind: kind, Func: vc.Name, Prefix: len(vc.script), Reach: st.reach, Goal: goal, Text: text}
